@@ -72,6 +72,8 @@ OBLIGATIONS = [
         what="ClientsInd!Spec => Clients!Spec (universe cov)"),
     tlc("clients.refA.zone", "ClientsRefA", "ClientsRefA.zone.cfg", tiers=T, group="clients.zone"),
     tlc("clients.refB.zone", "ClientsRefB", "ClientsRefB.zone.cfg", tiers=T, group="clients.zone"),
+    tlc("clients.refA.misc", "ClientsRefA", "ClientsRefA.misc.cfg", tiers=T, group="clients.misc"),
+    tlc("clients.refB.misc", "ClientsRefB", "ClientsRefB.misc.cfg", tiers=T, group="clients.misc"),
     tlc("clients.refA.set", "ClientsRefA", "ClientsRefA.set.cfg", tiers=T, group="clients.set", workers=4),
     tlc("clients.refB.set", "ClientsRefB", "ClientsRefB.set.cfg", tiers=T, group="clients.set", workers=4),
     apa("clients.init", "ClientsIndApa", "IndInv", "Init", 0, cinit="CInitQ", what="Init => IndInv"),
